@@ -572,7 +572,7 @@ func init() {
 		}
 
 		// ---- (1) generated tries
-		n := c.N(260, 3000)
+		n := c.N(700, 4000)
 		bodies := [][]byte{}
 		for i := 0; i < n; i++ {
 			scale := 1
@@ -671,7 +671,7 @@ func init() {
 		}
 
 		// ---- (2) synthetic messages: serialisation of extreme values (correspondence only)
-		ns := c.N(60, 600)
+		ns := c.N(200, 1000)
 		for i := 0; i < ns; i++ {
 			m := c05RandSlim(c.R.Fork())
 			var wb bytes.Buffer
@@ -688,7 +688,7 @@ func init() {
 		}
 
 		// ---- (3) mutated bodies through proto.Unmarshal (correspondence only)
-		nf := c.N(400, 6000)
+		nf := c.N(2000, 12000)
 		for i := 0; i < nf && len(bodies) > 0; i++ {
 			r := c.R.Fork()
 			body := bodies[r.Intn(len(bodies))]
@@ -700,7 +700,7 @@ func init() {
 
 		// ---- (4) histories
 		encs := []string{"I32", "S16", "U64", "I8", "B3", "U16", "I64", "TE"}
-		for s := 0; s < c.N(2, 10); s++ {
+		for s := 0; s < c.N(4, 12); s++ {
 			c05Histories(c, s, encs[s%len(encs)], reported)
 		}
 	})
